@@ -46,8 +46,10 @@ func ruleC09_3(c *Ctx) {
 			// every path from the spill to a return passes ModReadWrite
 			armed := true
 			exits := pathFrom(call.(ssa.Instruction), func(in ssa.Instruction) bool {
-				if ci, ok := in.(ssa.CallInstruction); ok && ci.Common().StaticCallee() == mod {
-					return true
+				if ci, ok := in.(ssa.CallInstruction); ok {
+					if callee := ci.Common().StaticCallee(); callee != nil && (callee == mod || mustCall(p, callee, mod, 2)) {
+						return true
+					}
 				}
 				return false
 			})
@@ -217,8 +219,13 @@ func ruleC17_6(c *Ctx) {
 				okR = false
 			}
 		}
-		// index runs 0,1,2,… < len(bs)
+		// index runs 0,1,2,… < len(bs)  (three-clause loop, or `for i := range bs` / `for i, b := range bs`)
 		okIdx := false
+		for _, sl := range rangeIndexLoops(fn) {
+			if sl.loop.Header == l.Header && strip(sl.coll) == ssa.Value(fn.Params[0]) {
+				okIdx = true
+			}
+		}
 		if ifi, ok := l.Header.Instrs[len(l.Header.Instrs)-1].(*ssa.If); ok {
 			if bo, ok := ifi.Cond.(*ssa.BinOp); ok && bo.Op == token.LSS && strings.HasPrefix(expr(bo.Y), "builtin:len(param0") {
 				if ph, ok := bo.X.(*ssa.Phi); ok {
@@ -342,6 +349,19 @@ func ruleC13_5(c *Ctx) {
 	for _, call := range p.callsIn(on, enq) {
 		arg := strip(call.Common().Args[0])
 		_, fresh := p.isCallTo(arg, get)
+		if cl, ok := arg.(*ssa.Call); ok && !fresh {
+			// a constructor helper all of whose returns yield a fragment it obtained from FragPool.Get()
+			if h := cl.Call.StaticCallee(); h != nil && p.ownFunc(h) && h.Blocks != nil {
+				all := true
+				rets := returnsReachable(h)
+				for _, r := range rets {
+					if _, is := p.isCallTo(strip(results(r.(*ssa.Return))[0]), get); !is {
+						all = false
+					}
+				}
+				fresh = all && len(rets) > 0
+			}
+		}
 		c.check(arg == f || fresh, "OnMoved: fragment handed to the target connection", c.at(call), "the redirected fragment, or one created by FragPool.Get() here",
 			"OnMoved queues "+expr(arg)+", which is neither the redirected fragment nor a fragment created for this redirect: a fragment shared between redirects is linked into a queue twice (the prev/next links are in the fragment), corrupting the queue and crashing the event loop when two redirects are in flight")
 	}
@@ -447,4 +467,20 @@ func ruleC15_6(c *Ctx) {
 	if bad == 0 {
 		c.ok("OnSClosed: frag.Peer dereferenced only for client fragments", p.pos(on.Pos()), fmt.Sprintf("%d dereferences, all behind the nil test", n))
 	}
+}
+
+// mustCall: every path through fn (from entry to a return) calls target, directly or through callees.
+func mustCall(p *Prog, fn, target *ssa.Function, depth int) bool {
+	if fn == nil || fn.Blocks == nil || depth < 0 || !p.ownFunc(fn) {
+		return false
+	}
+	exits := pathFromEntry(fn, func(in ssa.Instruction) bool {
+		if ci, ok := in.(ssa.CallInstruction); ok {
+			if callee := ci.Common().StaticCallee(); callee != nil && (callee == target || mustCall(p, callee, target, depth-1)) {
+				return true
+			}
+		}
+		return false
+	})
+	return len(exits) == 0
 }
